@@ -31,8 +31,8 @@ _STRING_CONSTS = {
 }
 
 _SAFE_METHODS = {
-    str: {"lower", "upper", "translate", "join", "startswith", "endswith", "strip", "rstrip", "lstrip", "replace", "split", "encode", "format", "title", "capitalize"},
-    bytes: {"lower", "upper", "translate", "join", "decode", "strip", "rstrip", "lstrip", "startswith", "endswith", "count", "find", "isalpha", "replace", "split"},
+    str: {"lower", "upper", "translate", "join", "startswith", "endswith", "strip", "rstrip", "lstrip", "replace", "split", "rsplit", "splitlines", "partition", "rpartition", "encode", "format", "title", "capitalize", "removeprefix", "removesuffix", "find", "rfind", "index", "count", "isdigit", "isalpha", "isspace", "zfill", "casefold", "swapcase", "expandtabs"},
+    bytes: {"lower", "upper", "translate", "join", "decode", "strip", "rstrip", "lstrip", "startswith", "endswith", "count", "find", "rfind", "index", "isalpha", "isdigit", "isspace", "replace", "split", "rsplit", "splitlines", "partition", "rpartition", "removeprefix", "removesuffix", "expandtabs", "swapcase"},
     dict: {"get", "keys", "values", "items"},
     tuple: {"index", "count"},
     list: {"index", "count"},
@@ -224,8 +224,21 @@ class Folder:
         if d in ("str", "int", "len", "tuple", "list", "set", "frozenset", "dict", "sorted", "min", "max", "bool", "ord", "chr", "range", "bytes", "abs"):
             f = {"str": str, "int": int, "len": len, "tuple": tuple, "list": list, "set": set, "frozenset": frozenset, "dict": dict, "sorted": sorted, "min": min, "max": max, "bool": bool, "ord": ord, "chr": chr, "range": range, "bytes": bytes, "abs": abs}[d]
             return f(*args, **kwargs)
+        # pure functions of the standard library applied to constants: regex matching (the result is a Match object or None,
+        # itself only consulted through .group/.start/.end/.span/.groups)
+        if d in ("re.match", "re.search", "re.fullmatch") and 2 <= len(args) <= 3 and isinstance(args[0], str | bytes) and type(args[0]) is type(args[1]) and all(isinstance(a_, int) for a_ in args[2:]):
+            import re as _re
+
+            try:
+                return getattr(_re, d[3:])(*args)
+            except _re.error as e_:
+                raise NotConstant(f"regex error {e_}") from e_
         if isinstance(n.func, ast.Attribute):
             recv = self.fold(n.func.value)
+            import re as _re
+
+            if isinstance(recv, _re.Match) and n.func.attr in ("group", "groups", "start", "end", "span", "groupdict"):
+                return getattr(recv, n.func.attr)(*args, **kwargs)
             for t, names in _SAFE_METHODS.items():
                 if isinstance(recv, t) and n.func.attr in names:
                     return getattr(recv, n.func.attr)(*args, **kwargs)
